@@ -344,15 +344,15 @@ pub fn run(args: &Args, report: &Report) {
         }
     });
     if args.replay.is_none() {
-        report.require("c02.nontrivial_blocks", args.by_tier(400, 4_000));
-        report.require("c02.coins_consumed", args.by_tier(1_500, 15_000));
-        report.require("c02.coins_created", args.by_tier(1_500, 15_000));
-        report.require("c02.messages_imported", args.by_tier(100, 1_000));
-        report.require("c02.messages_consumed", args.by_tier(60, 600));
-        report.require("c02.zero_amount_outputs_not_created", args.by_tier(200, 2_000));
-        report.require("c02.outcome.skip:TransactionValidity.CoinDoesNotExist", args.by_tier(30, 300));
-        report.require("c02.outcome.skip:TransactionValidity.MessageSpendTooEarly", args.by_tier(5, 50));
-        report.require("c02.failed_txs_with_message_inputs", args.by_tier(5, 50));
+        report.require("c02.nontrivial_blocks", args.by_tier(2900, 29000));
+        report.require("c02.coins_consumed", args.by_tier(15000, 150000));
+        report.require("c02.coins_created", args.by_tier(22000, 220000));
+        report.require("c02.messages_imported", args.by_tier(2800, 28000));
+        report.require("c02.messages_consumed", args.by_tier(2900, 29000));
+        report.require("c02.zero_amount_outputs_not_created", args.by_tier(8900, 89000));
+        report.require("c02.outcome.skip:TransactionValidity.CoinDoesNotExist", args.by_tier(900, 9000));
+        report.require("c02.outcome.skip:TransactionValidity.MessageSpendTooEarly", args.by_tier(850, 8500));
+        report.require("c02.failed_txs_with_message_inputs", args.by_tier(1200, 12000));
     }
     report.finish(
         args,
